@@ -37,6 +37,9 @@ type Op struct {
 // Plan is a sequence.
 type Plan struct {
 	Ops []Op `json:"ops"`
+	// Proto: the run uses resources whose spec is a generated protobuf message behind protobuf.ResourceSpec (type TP)
+	// instead of the hand-written spec type; every third value written is the empty message.
+	Proto bool `json:"proto,omitempty"`
 }
 
 var ids = []string{"a", "b", "c"}
@@ -45,7 +48,7 @@ var finPool = []string{"f1", "f2", "f3", "f4", "f5", "f6"}
 
 // Gen draws a plan.
 func Gen(t *rapid.T) Plan {
-	return Plan{Ops: rapid.SliceOfN(rapid.Custom(func(t *rapid.T) Op {
+	return Plan{Proto: rapid.IntRange(0, 3).Draw(t, "proto") == 0, Ops: rapid.SliceOfN(rapid.Custom(func(t *rapid.T) Op {
 		return Op{
 			K:    rapid.SampledFrom([]string{"create", "create", "update", "uwc", "modify", "get", "get", "get", "list", "list", "mutate", "mutate", "mutate", "mutate", "mutate", "mutate", "mutate", "copy", "copy", "copy"}).Draw(t, "k"),
 			ID:   rapid.IntRange(0, 2).Draw(t, "id"),
@@ -179,6 +182,9 @@ func applyMut(o resource.Resource, s *hres.Snap, mut, arg int) string {
 		case *hres.A:
 			x.TypedSpec().Value = val
 			s.Val = val
+		case *hres.P:
+			x.TypedSpec().Value.Key = val
+			s.Val = val
 		}
 
 		return "spec"
@@ -204,7 +210,21 @@ func Run(p Plan) (v hk.Verdict) {
 
 //nolint:gocyclo,gocognit,cyclop,maintidx
 func runBubble(p Plan) (v hk.Verdict) {
-	w, err := sim.NewWorld(sim.WorldOptions{Cached: []model.Key{{NS: "n1", Typ: "TA"}}})
+	typ := "TA"
+	newRes := func(id, val string, _ int) resource.Resource { return hres.New("n1", "TA", id, val) }
+
+	if p.Proto {
+		typ = hres.TypeTP
+		newRes = func(id, val string, n int) resource.Resource {
+			if n%3 == 0 {
+				val = ""
+			}
+
+			return hres.NewP("n1", id, val)
+		}
+	}
+
+	w, err := sim.NewWorld(sim.WorldOptions{Cached: []model.Key{{NS: "n1", Typ: typ}}})
 	if err != nil {
 		v.Failf("harness: %v", err)
 
@@ -227,7 +247,7 @@ func runBubble(p Plan) (v hk.Verdict) {
 	}()
 
 	ctx := w.Ctx
-	kind := resource.NewMetadata("n1", "TA", "", resource.VersionUndefined)
+	kind := resource.NewMetadata("n1", typ, "", resource.VersionUndefined)
 
 	w.Run()
 	w.Quiesce(2)
@@ -281,7 +301,7 @@ func runBubble(p Plan) (v hk.Verdict) {
 		for _, id := range ids {
 			want, exists := stored[id]
 
-			g, err := w.Inner.Get(ctx, resource.NewMetadata("n1", "TA", id, resource.VersionUndefined))
+			g, err := w.Inner.Get(ctx, resource.NewMetadata("n1", typ, id, resource.VersionUndefined))
 			if exists != (err == nil) {
 				v.Failf("step %d (%s): store has %s=%v, model exists=%v", step, what, id, err == nil, exists)
 
@@ -353,12 +373,12 @@ func runBubble(p Plan) (v hk.Verdict) {
 
 	for i, op := range p.Ops {
 		id := ids[op.ID]
-		ptr := resource.NewMetadata("n1", "TA", id, resource.VersionUndefined)
+		ptr := resource.NewMetadata("n1", typ, id, resource.VersionUndefined)
 		what := fmt.Sprintf("%+v", op)
 
 		switch op.K {
 		case "create":
-			var o resource.Resource = hres.New("n1", "TA", id, "c"+strconv.Itoa(i))
+			o := newRes(id, "c"+strconv.Itoa(i), i)
 			o.Metadata().Labels().Set("k1", "init")
 			o.Metadata().Finalizers().Add("f1")
 			o.Metadata().Finalizers().Add("f2")
@@ -379,7 +399,7 @@ func runBubble(p Plan) (v hk.Verdict) {
 			}
 
 			h := pool[op.Idx%len(pool)]
-			if h.obj.Metadata().Type() != "TA" {
+			if h.obj.Metadata().Type() != typ {
 				continue
 			}
 
@@ -414,7 +434,7 @@ func runBubble(p Plan) (v hk.Verdict) {
 			if op.K == "uwc" {
 				r, err = st.UpdateWithConflicts(ctx, ptr, mutator, state.WithExpectedPhaseAny(), state.WithUpdateOwner(stored[id].Owner))
 			} else {
-				r, err = st.ModifyWithResult(ctx, hres.New("n1", "TA", id, "mod"+strconv.Itoa(i)), mutator, state.WithExpectedPhaseAny(), state.WithUpdateOwner(stored[id].Owner))
+				r, err = st.ModifyWithResult(ctx, newRes(id, "mod"+strconv.Itoa(i), i), mutator, state.WithExpectedPhaseAny(), state.WithUpdateOwner(stored[id].Owner))
 			}
 
 			if err == nil {
@@ -489,7 +509,11 @@ func runBubble(p Plan) (v hk.Verdict) {
 				add(h.obj.DeepCopy(), "copy", h.group)
 			} else {
 				// metadata Copy() into a new resource
-				add(hres.NewMD(h.obj.Metadata().Copy(), hres.Value(h.obj)), "copy", h.group)
+				if p.Proto {
+					add(hres.NewPMD(h.obj.Metadata().Copy(), hres.Value(h.obj)), "copy", h.group)
+				} else {
+					add(hres.NewMD(h.obj.Metadata().Copy(), hres.Value(h.obj)), "copy", h.group)
+				}
 			}
 
 			v.Label("copy")
